@@ -3,6 +3,7 @@
 Every numeric literal is an exact decimal; SI prefixes are applied as exact Fractions, so that equivalent
 spellings are exactly equal on the reference side.
 """
+import math
 from decimal import Decimal
 from fractions import Fraction
 
@@ -70,6 +71,8 @@ def render_q(x_base, fam, prefix='', style=0, digits=12):
     """A quantity string denoting (x_base snapped to `digits` digits in the prefixed unit)."""
     if fam == 'U':
         prefix = ''
+    if not math.isfinite(x_base):          # amounts derived through a density of inf (substances without volume)
+        x_base = 1e-6
     v = x_base / float(PREFIXES[prefix])
     frac, s = snap(v, digits)
     text = dec_text(s, style)
